@@ -373,7 +373,7 @@ package decorator
 //@ ensures failed_write_reported: result == nil ==> (forall j int :: 0 <= j && j < len(p.Syntax) ==> wok(old(nwrites) + j))
 //@ ensures nothing_after_failed_write: forall j int :: 0 <= j && j + 1 < nwrites - old(nwrites) ==> wok(old(nwrites) + j)
 //@ loop 1 invariant count: nwrites == entry(nwrites) + $i && 0 <= $i && $i <= len(p.Syntax)
-//@ loop 1 invariant restorer_ready: r != nil && r.readyInv()
+//@ loop 1 invariant restorer_ready: the(type(*Restorer)) != nil && the(type(*Restorer)).readyInv()
 //@ loop 1 invariant names: forall j int :: 0 <= j && j < $i ==> wname(entry(nwrites) + j) == p.Decorator.Filenames[p.Syntax[j]] && wperm(entry(nwrites) + j) == 438 && wok(entry(nwrites) + j)
 
 // ---------------------------------------------------------------------------------------------
